@@ -15,7 +15,8 @@ Import ListNotations.
    depth at each), depth and jump-buffer stack restored; normal end leaves [active] clear; a raise
    leaves the thrown object/message in the record and goes to the innermost enclosing buffer, or
    kills the program (Exception_Error) when there is none. *)
-Theorem exn_machine_refines_structured : forall p st,
+Theorem exn_machine_refines_structured : forall p ret brk st,
+  exits_ok ret brk p = true ->
   depth st + nesting p <= exc_max_depth ->
   let '(tr, r, st') := mach p st in
   let '(tr0, r0, c') := ref_run (depth st) (msg st) p in
@@ -28,6 +29,7 @@ Theorem exn_machine_refines_structured : forall p st,
       | [] => r = MDied (Some k) m
       | t :: _ => r = MJump t
       end
+  | RExit k => r = MExit k /\ (active st = false -> active st' = false)
   end.
 Proof. exact ExnProofs.machine_refines_structured. Qed.
 Print Assumptions exn_machine_refines_structured.
@@ -40,11 +42,11 @@ Proof. split; apply PeanoNat.Nat.leb_le; vm_compute; reflexivity. Qed.
 (* A whole program on a thread's fresh record: it ends normally at depth 0 exactly when the
    structured semantics does, and otherwise dies with failure status and the diagnostic for the
    object/message the structured semantics leaves unhandled. *)
-Theorem exn_whole_program : forall p, nesting p <= exc_max_depth ->
+Theorem exn_whole_program : forall p, exits_ok true false p = true -> nesting p <= exc_max_depth ->
   let '(tr, r, st') := mach p st_init in
   let '(tr0, r0, c') := ref_run 0 0 p in
   tr = tr0 /\ depth st' = 0 /\
-  r = match r0 with RNormal => MNormal | RRaised k m => MDied (Some k) m end.
+  r = match r0 with RNormal => MNormal | RRaised k m => MDied (Some k) m | RExit k => MExit k end.
 Proof. exact ExnProofs.whole_program. Qed.
 Print Assumptions exn_whole_program.
 
@@ -56,6 +58,7 @@ Proof. split; [apply PeanoNat.Nat.leb_le; vm_compute; reflexivity | reflexivity]
 (* A handled exception never fires again in an enclosing block: a try whose body ends normally
    (every exception raised in it was handled by a block inside it) never enters its handler. *)
 Theorem exn_handled_not_seen_outside : forall B fs h st,
+  exits_ok false false B = true ->
   depth st + S (nesting B) <= exc_max_depth ->
   snd (fst (ref_run (S (depth st)) (msg st) B)) = RNormal ->
   let '(tr, r, st') := mach (PTry B fs h) st in
@@ -74,7 +77,8 @@ Theorem exn_reference_is_eval : forall d c p t r c', eval d c p t r c' <-> ref_r
 Proof. exact ExnProofs.eval_iff_ref_run. Qed.
 Print Assumptions exn_reference_is_eval.
 
-Theorem exn_machine_follows_eval : forall p st t r0 c',
+Theorem exn_machine_follows_eval : forall p ret brk st t r0 c',
+  exits_ok ret brk p = true ->
   depth st + nesting p <= exc_max_depth ->
   eval (depth st) (msg st) p t r0 c' ->
   let '(tr, r, st') := mach p st in
@@ -83,6 +87,7 @@ Theorem exn_machine_follows_eval : forall p st t r0 c',
   | RNormal => r = MNormal
   | RRaised k m => obj st' = Some k /\ msg st' = m /\
                    match bufs st with [] => r = MDied (Some k) m | b :: _ => r = MJump b end
+  | RExit k => r = MExit k
   end.
 Proof. exact ExnProofs.machine_follows_eval. Qed.
 Print Assumptions exn_machine_follows_eval.
@@ -102,7 +107,7 @@ Theorem exn_handler_runs_iff : forall d c b fs h t r c',
   ((exists k m, r1 = RRaised k m /\ accepts fs k) <->
    (exists k m t2, t = t1 ++ EHandler k m d :: t2)) /\
   (forall k m t2, t = t1 ++ EHandler k m d :: t2 ->
-     r1 = RRaised k m /\ exists r2, eval d c1 h t2 r2 c' /\ r = r2).
+     r1 = RRaised k m /\ exists r2, eval d c1 h t2 r2 c' /\ r = rhandler_end r2).
 Proof. exact ExnProofs.handler_runs_iff. Qed.
 Print Assumptions exn_handler_runs_iff.
 
@@ -114,7 +119,8 @@ Proof. split; apply ExnProofs.eval_iff_ref_run; reflexivity. Qed.
 (* "A non-matching exception continues to the nearest enclosing matching handler": p raises k inside
    blocks pre (innermost first) none of which accepts k, inside a block that does, inside anything:
    none of the skipped handlers runs, the accepting one is entered with k at its own depth. *)
-Theorem exn_nearest_matching_handler : forall pre fs h p st t1 k m c1,
+Theorem exn_nearest_matching_handler : forall pre fs h p ret brk st t1 k m c1,
+  exits_ok ret brk (chain (pre ++ [(fs, h)]) p) = true ->
   depth st + nesting (chain (pre ++ [(fs, h)]) p) <= exc_max_depth ->
   ref_run (S (length pre + depth st)) (msg st) p = (t1, RRaised k m, c1) ->
   Forall (fun lv => rejects (fst lv) k) pre ->
@@ -137,6 +143,7 @@ Qed.
 
 (* "... and one that nobody handles terminates the program with a failure status and a diagnostic" *)
 Theorem exn_nobody_matches_dies : forall pre p t1 k m c1,
+  exits_ok true false (chain pre p) = true ->
   nesting (chain pre p) <= exc_max_depth ->
   ref_run (length pre) 0 p = (t1, RRaised k m, c1) ->
   Forall (fun lv => rejects (fst lv) k) pre ->
@@ -164,6 +171,21 @@ Print Assumptions exn_bound_object_is_thrown_identity.
 Example exn_bound_object_is_thrown_identity_nonvacuous :
   accepts [0] 1 /\ 0 <> 1 /\ kind_of 0 = kind_of 1.
 Proof. split; [right; exists 0; split; [now left | reflexivity] | split; [discriminate | reflexivity]]. Qed.
+
+(* ... also when the handler that handled it is LEFT EARLY, by break, by continue, or by return from the
+   function the inner block stands in (early k o m): the enclosing handler stays out, the flag is clear.
+   exits_ok says where break / continue / return may stand: never so as to leave a try BODY (that skips
+   exception_try_end — the misuse the library's documentation warns of). *)
+Theorem exn_early_exit_not_seen_outside : forall k o m fs' h' st,
+  depth st + 2 <= exc_max_depth ->
+  let '(tr, r, st') := mach (PTry (PSeq (early k o m) (PTick 2)) fs' h') st in
+  tr = [EHandler o (set_msg m (msg st)) (S (depth st)); ETick 1 (S (depth st)); ETick 2 (S (depth st))]
+  /\ r = MNormal /\ depth st' = depth st /\ active st' = false.
+Proof. exact ExnProofs.early_exit_not_seen_outside. Qed.
+Print Assumptions exn_early_exit_not_seen_outside.
+
+Example exn_early_exit_not_seen_outside_nonvacuous : depth st_init + 2 <= exc_max_depth.
+Proof. apply PeanoNat.Nat.leb_le; vm_compute; reflexivity. Qed.
 
 (* The nesting bound of the theorems is the real one: one more try aborts. *)
 Theorem exn_overflow_aborts : forall b fs h st,
@@ -251,36 +273,66 @@ Print Assumptions exn_macro_shapes.
 (* The five state-changing C functions (exception_try, exception_try_end, exception_try_fail,
    exception_throw, exception_catch; Exception_Len and Exception_Buffer inlined) are TRANSLATED by
    tools/exn_symex.py into state transformers over the C view of the record (Generated.ExnTr); each
-   simulates the machine's function through abs (stack = buffers[depth-1] .. buffers[0]).  Statement
-   order, temporaries and index arithmetic of the C text are free; its effect is not. *)
+   simulates the machine's function through abs (stack = buffers[depth-1] .. buffers[0]), on every C
+   state that satisfies the record's invariant minv.  Statement order, temporaries, helper functions
+   and index arithmetic of the C text are free; its effect is not.  The flags of the machine
+   (clear_active_on_catch, throw_records_obj_after_format, try_keeps_obj) are read off the translation
+   on probe states; these theorems check them on all states. *)
 Theorem exn_tie_try : forall env s,
+  minv exc_max_depth (abs s) ->
   sim (ExnTr.tr_exception_try env s) (m_try exc_max_depth try_keeps_obj env (abs s)).
 Proof. exact ExnTie.tie_try. Qed.
 Print Assumptions exn_tie_try.
 
-Theorem exn_tie_try_end : forall s, sim (ExnTr.tr_exception_try_end s) (m_try_end (abs s)).
+Theorem exn_tie_try_end : forall s,
+  minv exc_max_depth (abs s) -> sim (ExnTr.tr_exception_try_end s) (m_try_end (abs s)).
 Proof. exact ExnTie.tie_try_end. Qed.
 Print Assumptions exn_tie_try_end.
 
-Theorem exn_tie_try_fail : forall s, sim (ExnTr.tr_exception_try_fail s) (m_try_fail (abs s)).
+Theorem exn_tie_try_fail : forall s,
+  minv exc_max_depth (abs s) -> 1 <= ExnTr.c_depth s ->
+  sim (ExnTr.tr_exception_try_fail s) (m_try_fail (abs s)).
 Proof. exact ExnTie.tie_try_fail. Qed.
 Print Assumptions exn_tie_try_fail.
 
-Theorem exn_tie_catch : forall fs s,
-  sim (ExnTr.tr_exception_catch (fun f o => Nat.eqb (kind_of f) (kind_of o)) fs s)
+Theorem exn_tie_catch : forall istuple fs s,
+  minv exc_max_depth (abs s) ->
+  sim (ExnTr.tr_exception_catch (fun f o => Nat.eqb (kind_of f) (kind_of o)) istuple fs s)
       (m_catch clear_active_on_catch fs (abs s)).
 Proof. exact ExnTie.tie_catch. Qed.
 Print Assumptions exn_tie_catch.
 
 Theorem exn_tie_throw : forall o m s,
+  minv exc_max_depth (abs s) ->
   sim (ExnTr.tr_exception_throw (set_msg m) o s) (m_throw throw_records_obj_after_format o m (abs s)).
 Proof. exact ExnTie.tie_throw. Qed.
 Print Assumptions exn_tie_throw.
 
-(* the two functions that only print (diagnostic + exit(EXIT_FAILURE); the signal table) stay tied by text *)
+(* The hypotheses of the tie theorems hold wherever the machine applies a function: every state it
+   produces satisfies the record's invariant minv (depth within the array, live slots not NULL), and
+   a jump in flight carries the state it started from, so exception_try_fail — reached only when a
+   jump lands — runs with a buffer on the stack. *)
+Theorem exn_machine_stays_in_domain : forall max clr oaf tko p st tr r st',
+  minv max st -> mrun max clr oaf tko p st = (tr, r, st') -> minv max st'.
+Proof. exact ExnTie.mrun_inv. Qed.
+Print Assumptions exn_machine_stays_in_domain.
+
+Theorem exn_jump_carries_its_buffer : forall max clr oaf tko p st tr t s,
+  mrun max clr oaf tko p st = (tr, MJump t, s) -> exists b, bufs s = t :: b.
+Proof. exact ExnTie.mjump_state. Qed.
+Print Assumptions exn_jump_carries_its_buffer.
+
+Example exn_tie_domain_nonvacuous : minv exc_max_depth st_init /\ minv exc_max_depth (MS (Some 3) 1 [2; 1] true).
+Proof. split; (split; [apply PeanoNat.Nat.leb_le; vm_compute; reflexivity | repeat constructor; discriminate]). Qed.
+
+(* Exception_Error (the model's MDied): output calls that report "Uncaught <obj>" and the message on
+   stderr, then exit(EXIT_FAILURE) — checked by tools/genx_exn.py on the parsed statements *)
+Theorem exn_error_reports_and_exits_in_source : exn_error_reports_and_exits = true.
+Proof. exact (eq_refl true). Qed.
+Print Assumptions exn_error_reports_and_exits_in_source.
+
+(* the signal table (Exception_Signal: which signal throws which kind with which text) stays tied by text *)
 Theorem exn_source_shapes :
-  Forall (fun p => fst p = snd p)
-    [(exn_src_error, expected_src_error); (exn_src_signal, expected_src_signal)].
-Proof. exact (ExnProofs.strings_equal_dec
-    [(exn_src_error, expected_src_error); (exn_src_signal, expected_src_signal)]). Qed.
+  Forall (fun p => fst p = snd p) [(exn_src_signal, expected_src_signal)].
+Proof. exact (ExnProofs.strings_equal_dec [(exn_src_signal, expected_src_signal)]). Qed.
 Print Assumptions exn_source_shapes.
